@@ -134,3 +134,46 @@ def loop_source_of(body, F, sym):
         else:
             break
     return None
+
+
+def _signed(v, ty):
+    bits = {'i8': 8, 'i16': 16, 'i32': 32, 'i64': 64, 'isize': 64, 'i128': 128}.get(ty)
+    v = int(v)
+    if bits and v >= 1 << (bits - 1):
+        v -= 1 << bits
+    return v
+
+
+def reachable_under(body, F, pred_sym, value):
+    """blocks reachable from entry when the integer-valued expression selected by pred_sym(sym) is known to equal `value`:
+    switches directly on that expression, or on a comparison of it with a constant, follow only the feasible edge;
+    every other branch keeps all successors (an over-approximation of the feasible paths under the assumption)."""
+    seen = {0}; work = [0]
+    OPS = {'Lt': lambda a, b: a < b, 'Le': lambda a, b: a <= b, 'Gt': lambda a, b: a > b, 'Ge': lambda a, b: a >= b,
+           'Eq': lambda a, b: a == b, 'Ne': lambda a, b: a != b}
+    while work:
+        bb = work.pop()
+        t = body.term(bb)
+        succ = None
+        if t[0] == 'switch':
+            e = F.sym_operand(t[1])
+            if pred_sym(e):
+                hit = [d for v, d in t[3] if _signed(v, t[2]) == value]
+                succ = hit[:1] if hit else [t[4]]
+            elif e[0] == 'bin' and e[1] in OPS:
+                a, b_ = e[2], e[3]
+                ca, cb = F.const_int(a), F.const_int(b_)
+                val = None
+                if pred_sym(a) and cb is not None:
+                    val = OPS[e[1]](value, cb)
+                elif pred_sym(b_) and ca is not None:
+                    val = OPS[e[1]](ca, value)
+                if val is not None:
+                    hit = [d for v, d in t[3] if (int(v) != 0) == val]
+                    succ = hit[:1] if hit else [t[4]]
+        if succ is None:
+            succ = [s for s in body.succ(bb)]
+        for s in succ:
+            if s not in seen and not body.is_cleanup(s):
+                seen.add(s); work.append(s)
+    return seen
